@@ -28,13 +28,22 @@ def main(argv):
         return 2
     spec = props.PROPS[prop]
     rep = engine.Report(prop, tier, seed)
+    selftest_failure = None
     try:
         ctx = props.Ctx(tier, rep)
         spec["run"](ctx)
         ctx.enforce_floors(spec.get("floors", {}))
         ctx.run_controls(spec.get("controls", []))
         if tier == "thorough":
-            ctx.run_thorough(spec)
+            try:
+                ctx.run_thorough(spec)
+            except Exception as e:
+                import thorough
+                if not isinstance(e, thorough.ThoroughFailure):
+                    raise
+                # the self-test concerns the checker, the verdict concerns /repo: a violation found by the rules
+                # is reported whatever the self-test says (on a changed tree some self-test variants go stale)
+                selftest_failure = str(e)
     except facts.ExtractionError as e:
         print("ERROR: cannot extract facts from the current tree: %s" % e)
         return 2
@@ -56,4 +65,8 @@ def main(argv):
     print("%s [%s] %d obligations, %d discharged, %d allowed, %d known, %d violations; cfgs=%s; %.1fs" % (
         prop, tier, cov["obligations"], cov["discharged"], len(cov["allow_list_used"]),
         len(cov["known_findings_hit"]), nviol, ",".join(rep.configs), ev["wall_s"]))
+    if selftest_failure:
+        print("ERROR: thorough-tier checker self-test failed (%s): %s" % (
+            "the violations above stand on their own" if nviol else "machinery broken, no verdict", selftest_failure))
+        return 1 if nviol else 2
     return 1 if nviol else 0
